@@ -65,7 +65,7 @@ PROPS = {
     },
     'C17': {
         'props': 'Props/C17.v',
-        'suites': [{'name': 'cdecode', 'oracles': {'cdecode': 'o_reqs'}, 'trivial_tags': ['out-wait'], 'vm_sample': 40}, {'name': 'loop', 'oracles': {'loop': 'o_loop'}, 'trivial_tags': ['plain'], 'vm_sample': 6, 'sigs': ['backend-received-bytes-that-are-not-requests', 'reply-does-not-belong-to-the-request-at-its-position', 'more-replies-than-requests', 'event-loop-stopped']}],
+        'suites': [{'name': 'cdecode', 'oracles': {'cdecode': 'o_reqs'}, 'trivial_tags': ['out-wait'], 'vm_sample': 40}, {'name': 'loop', 'oracles': {'loop': 'o_loop'}, 'trivial_tags': ['plain'], 'vm_sample': 6, 'sigs': ['backend-received-bytes-that-are-not-requests', 'reply-does-not-belong-to-the-request-at-its-position', 'more-replies-than-requests', 'reply-larger-than-the-limit-delivered', 'event-loop-stopped']}],
         'rule': 'as C06; includes all 104 table names x 3 letter cases x 9 argument counts, 22 unsupported/near-miss names, and limits set to '
                 'the request size -2..+2, alone and inside a pipeline',
         'explanation': 'Data theorems re-proved against the tables translated from commands.go and docs/command.md on this run (supported set = documented '
@@ -165,7 +165,7 @@ PROPS = {
     },
     'C09': {
         'props': 'Props/C09.v',
-        'suites': [{'name': 'loop', 'oracles': {'loop': 'o_loop'}, 'trivial_tags': ['plain'], 'vm_sample': 12, 'sigs': ['completed-reply-withheld-at-head-of-queue', 'backend-reply-received-but-not-processed', 'event-loop-stopped']}],
+        'suites': [{'name': 'loop', 'oracles': {'loop': 'o_loop'}, 'trivial_tags': ['plain'], 'vm_sample': 12, 'sigs': ['completed-reply-withheld-at-head-of-queue', 'backend-reply-received-but-not-processed', 'event-loop-stopped']}, {'name': 'pressure', 'oracles': {'loopfinal': 'o_loop'}, 'trivial_tags': ['plain'], 'vm_sample': 3, 'sigs': ['backlog-not-flushed-on-a-readable-and-writable-event', 'completed-reply-withheld-at-head-of-queue', 'event-loop-stopped']}],
         'rule': LOOP_RULE,
         'explanation': 'Theorem C09_no_completed_head: for every history and every open client, at the end of each event the head of the queue is not a completed request - a deliverable reply is written in the event that completed it. One genuine defect repaired (flush gated on the whole queue being done). The wall-clock bound (epoll latency) is runtime behaviour outside the model; the stepper snapshot exposes the done flag of every queue head after each event.',
         'assumptions': ['as C01'],
@@ -221,6 +221,7 @@ PROPS = {
 # wrong node shows there)
 for _pid in ('C06', 'C07', 'C11', 'C17'):
     PROPS[_pid]['rule'] += ' | loop suite: ' + LOOP_RULE
+PROPS['C09']['rule'] += ' | pressure suite: as C10; includes events that are readable and writable at once, delivered through the dispatcher of the reactor (eventloop.callback), to a client with replies piled up that has just emptied its socket'
 PROPS['C02']['rule'] += ' | loop suite: ' + LOOP_RULE + ' | pressure suite: as C10 (replies and requests larger than the socket buffers, peers that read late and in pieces)'
 
 NOT_YET = {}
